@@ -133,6 +133,11 @@ func (o *oracleCtx) checkState(step int, ob Obs, res string) *SImage {
 					prop = "C11"
 				}
 				o.add(prop, step, "", "%s", w)
+				if prop == "C01" && strings.Contains(w, "Metadata() = ") {
+					// a typed accessor that disagrees with an independent decoding of the extra
+					// record also means the record is not laid out / read as SIF v1 prescribes
+					o.add("C11", step, "", "%s", w)
+				}
 			}
 		}
 		hb, rds, mids := sif.VerifRaw(f2)
